@@ -237,9 +237,10 @@ func genCase(t *rapid.T) Case {
 		c.Start.Seed = rapid.Uint64().Draw(t, "seed0")
 	}
 
-	nops := rapid.IntRange(1, hx.Pick(24, 60)).Draw(t, "nops")
+	// one step = one to four ops; drawn as a slice so that rapid can delete whole steps when shrinking
 	var prev []Read
-	for i := 0; i < nops; i++ {
+	step := rapid.Custom(func(t *rapid.T) []Op {
+		var ops []Op
 		kind := rapid.SampledFrom([]string{"read", "read", "read", "read", "read", "read", "read", "read", "read",
 			"conc", "conc", "conc", "save", "save", "restart", "restart", "restart", "preload", "fail", "fail", "heal", "drop"}).Draw(t, "op")
 		switch kind {
@@ -252,7 +253,7 @@ func genCase(t *rapid.T) Case {
 				r = genRead(t, spans, L, mx)
 			}
 			prev = append(prev, r)
-			c.Ops = append(c.Ops, Op{Kind: "read", R: &r})
+			ops = append(ops, Op{Kind: "read", R: &r})
 		case "conc":
 			g := rapid.IntRange(2, 4).Draw(t, "g")
 			n := rapid.IntRange(g, 8).Draw(t, "nreads")
@@ -277,41 +278,45 @@ func genCase(t *rapid.T) Case {
 				prev = append(prev, r)
 				op.Reads = append(op.Reads, r)
 			}
-			c.Ops = append(c.Ops, op)
+			ops = append(ops, op)
 		case "save":
-			c.Ops = append(c.Ops, Op{Kind: "save", Arg: rapid.IntRange(0, 1).Draw(t, "close")})
+			ops = append(ops, Op{Kind: "save", Arg: rapid.IntRange(0, 1).Draw(t, "close")})
 		case "restart":
 			op := genRestart(t, false)
 			switch rapid.IntRange(0, 7).Draw(t, "scenario") {
 			case 0, 1, 2: // orderly shutdown: save, then reuse both files
-				c.Ops = append(c.Ops, Op{Kind: "save", Arg: rapid.IntRange(0, 1).Draw(t, "close")})
+				ops = append(ops, Op{Kind: "save", Arg: rapid.IntRange(0, 1).Draw(t, "close")})
 				op.State, op.Cache = "kept", "kept"
 			case 3: // cache file lost or cut between runs, the next run dies without saving, third run reuses what is there
 				op.State = "kept"
 				op.Cache = rapid.SampledFrom([]string{"deleted", "truncated"}).Draw(t, "lost")
-				c.Ops = append(c.Ops, op)
+				ops = append(ops, op)
 				for k, n := 0, rapid.IntRange(0, 2).Draw(t, "between"); k < n; k++ {
 					r := genRead(t, spans, L, mx)
 					prev = append(prev, r)
-					c.Ops = append(c.Ops, Op{Kind: "read", R: &r})
+					ops = append(ops, Op{Kind: "read", R: &r})
 				}
 				op = genRestart(t, false)
 				op.State, op.Cache = "kept", "kept"
 			}
-			c.Ops = append(c.Ops, op)
+			ops = append(ops, op)
 		case "preload":
-			c.Ops = append(c.Ops, genRestart(t, true))
+			ops = append(ops, genRestart(t, true))
 		case "fail":
-			c.Ops = append(c.Ops, Op{Kind: "fail", K: rapid.SampledFrom([]int{1, 1, 1, 2, 3, 0}).Draw(t, "k")})
+			ops = append(ops, Op{Kind: "fail", K: rapid.SampledFrom([]int{1, 1, 1, 2, 3, 0}).Draw(t, "k")})
 		case "heal":
-			c.Ops = append(c.Ops, Op{Kind: "heal"})
+			ops = append(ops, Op{Kind: "heal"})
 		case "drop":
 			k := "drop"
 			if rapid.Bool().Draw(t, "put") {
 				k = "put"
 			}
-			c.Ops = append(c.Ops, Op{Kind: k, Chunk: rapid.IntRange(0, 1<<10).Draw(t, "dchunk")})
+			ops = append(ops, Op{Kind: k, Chunk: rapid.IntRange(0, 1<<10).Draw(t, "dchunk")})
 		}
+		return ops
+	})
+	for _, ops := range rapid.SliceOfN(step, 1, hx.Pick(24, 60)).Draw(t, "ops") {
+		c.Ops = append(c.Ops, ops...)
 	}
 	return c
 }
